@@ -1,0 +1,50 @@
+//go:build verif
+
+package tree
+
+import (
+	"reflect"
+	"runtime"
+	"strings"
+
+	pr "github.com/benoitkugler/webrender/css/properties"
+)
+
+// Read-only accessors used by the C04 verification harness (/verif/harness/c04).
+
+// VerifC04ComputerNames returns, for every known property, the (unqualified) name of the
+// computer function registered in computerFunctions, or "" when there is none.
+func VerifC04ComputerNames() [pr.NbProperties]string {
+	var out [pr.NbProperties]string
+	for i, fn := range computerFunctions {
+		if fn == nil {
+			continue
+		}
+		name := runtime.FuncForPC(reflect.ValueOf(fn).Pointer()).Name()
+		if j := strings.LastIndex(name, "."); j >= 0 {
+			name = name[j+1:]
+		}
+		out[i] = name
+	}
+	return out
+}
+
+// VerifC04RawStyle returns the style object stored for (element, pseudoType) without the
+// table padding/margin overrides applied by StyleFor.Get (nil when there is none).
+func VerifC04RawStyle(sf *StyleFor, element Element, pseudoType string) pr.ElementStyle {
+	return sf.computedStyles[element.ToKey(pseudoType)]
+}
+
+// VerifC04FontWeightTables returns the bolder / lighter tables of fontWeight.
+func VerifC04FontWeightTables() (bolder, lighter map[int]int) {
+	return fontWeightRelative.bolder, fontWeightRelative.lighter
+}
+
+// VerifC04BorderWidthKeywords returns the thin/medium/thick table of borderWidth.
+func VerifC04BorderWidthKeywords() map[string]pr.Float { return borderWidthKeywords }
+
+// VerifC04IsAnonymous reports whether the style is an *AnonymousStyle.
+func VerifC04IsAnonymous(s pr.ElementStyle) bool {
+	_, ok := s.(*AnonymousStyle)
+	return ok
+}
